@@ -23,15 +23,15 @@ const prop = "C14"
 
 // Val is a JSON-serialisable value description with a representation choice.
 type Val struct {
-	K    string  `json:"k"` // int float str bool list map closure
-	I    int     `json:"i,omitempty"`
-	F    float64 `json:"f,omitempty"`
-	FS   string  `json:"fs,omitempty"` // nan, +inf, -inf, -0
-	S    string  `json:"s,omitempty"`
-	B    bool    `json:"b,omitempty"`
+	K    string   `json:"k"` // int float str bool list map closure
+	I    int      `json:"i,omitempty"`
+	F    float64  `json:"f,omitempty"`
+	FS   string   `json:"fs,omitempty"` // nan, +inf, -inf, -0
+	S    string   `json:"s,omitempty"`
+	B    bool     `json:"b,omitempty"`
 	Keys []string `json:"keys,omitempty"`
-	X    []Val   `json:"x,omitempty"`
-	Rep  int     `json:"rep,omitempty"` // list: 0 slice, 1 lazy, 2 lazy then evaluated; map: obs.MapRep
+	X    []Val    `json:"x,omitempty"`
+	Rep  int      `json:"rep,omitempty"` // list: 0 slice, 1 lazy, 2 lazy then evaluated; map: obs.MapRep
 }
 
 func (v Val) float() float64 {
@@ -551,7 +551,56 @@ func check(c Case) string {
 			}
 		}
 	}
+	for _, v := range vals {
+		if msg := checkSameObject(v); msg != "" {
+			return msg
+		}
+	}
 	return checkDerived(c)
+}
+
+// checkSameObject: the very same value object on both sides of an operator (an argument
+// used twice, a let bound value, a list shared by two containers) is compared like two
+// independently built copies: element-wise, so NaN makes '=' false and a closure makes it fail.
+func checkSameObject(v Val) string {
+	rv := v.ref()
+	one := ref.Int(1)
+	shapes := []struct {
+		text  string
+		model ref.Value
+	}{
+		{"a %s a", rv},
+		{"[1, a] %s [1, a]", &ref.List{Items: []ref.Value{one, rv}}},
+		{"{k: a} %s {k: a}", &ref.Map{Keys: []string{"k"}, Vals: []ref.Value{rv}}},
+		{"let l = [a, 1]; l %s l", &ref.List{Items: []ref.Value{rv, one}}},
+		{"let m = {k: a}; m %s m", &ref.Map{Keys: []string{"k"}, Vals: []ref.Value{rv}}},
+	}
+	x := v.impl()
+	lit, hasLit := v.literal()
+	for _, sh := range shapes {
+		for _, op := range ops {
+			want := modelOp(op, sh.model, sh.model)
+			if want == -1 {
+				continue
+			}
+			text := fmt.Sprintf(sh.text, op)
+			got := toTri(derivedFn(text, "a").Eval(x))
+			if !agrees(got, want) {
+				return fmt.Sprintf("run-time path, the same object on both sides: %s with a=%s gives %v, two separately built copies compare as %v", text, show(v), got, want)
+			}
+			if hasLit {
+				text2 := "let a = " + lang.Render(lit) + "; " + text
+				f, _, err := gen.Generate(text2)
+				if err != nil {
+					return "Generate(" + text2 + "): " + err.Error()
+				}
+				if got := toTri(f.Eval()); !agrees(got, want) {
+					return fmt.Sprintf("constant-folding path, the same object on both sides: %s gives %v, two separately built copies compare as %v", text2, got, want)
+				}
+			}
+		}
+	}
+	return ""
 }
 
 var derived = map[string]funcGen.Func[value.Value]{}
@@ -850,6 +899,11 @@ func TestPropC14(t *testing.T) {
 		}
 		if depth(a) >= 2 || depth(b) >= 2 || depth(c) >= 2 {
 			cls = append(cls, "container_depth_2plus")
+		}
+		for _, v := range []Val{a, b, c} {
+			if hasNaNOrClosure(v.ref()) && (v.K == "list" || v.K == "map") {
+				cls = append(cls, "container_with_NaN_or_closure_compared_with_itself")
+			}
 		}
 		if modelEqual(a.ref(), b.ref()) == tErr || modelEqual(b.ref(), c.ref()) == tErr {
 			cls = append(cls, "incomparable_pair")
